@@ -12,16 +12,34 @@ pub struct BlockCase {
     pub edges: Vec<Vec<usize>>,
     /// constant carried by each definition (pairwise distinct)
     pub consts: Vec<i64>,
+    /// 0: value, annotation after the binder; 1: value, annotation inside the binder pattern;
+    /// 2: type alias (stands for Int64, possibly through another alias)
+    pub kinds: Vec<u8>,
 }
 
 fn def_text(case: &BlockCase, i: usize) -> String {
+    if case.kinds[i] == 2 {
+        let target = case.edges[i].first().map(|j| format!("Zq{j}")).unwrap_or_else(|| "Int64".into());
+        return format!("  let Zq{i} = {target} that\n");
+    }
     let mut body = String::new();
     let mut acc = format!("{}", case.consts[i]);
-    for (k, j) in case.edges[i].iter().enumerate() {
+    let mut scalar = "Int64".to_string();
+    let mut k = 0;
+    for j in case.edges[i].iter() {
+        if case.kinds[*j] == 2 {
+            scalar = format!("Zq{j}");
+            continue;
+        }
         write!(body, "do a{k} <- ! zq{j}; do s{k} <- ! (int64/add) {acc} a{k}; ").unwrap();
         acc = format!("s{k}");
+        k += 1;
     }
-    format!("  let zq{i} : Thk (Ret Int64) = {{ {body}ret {acc} }} that\n")
+    if case.kinds[i] == 1 {
+        format!("  let (zq{i} : Thk (Ret {scalar})) = {{ {body}ret {acc} }} that\n")
+    } else {
+        format!("  let zq{i} : Thk (Ret {scalar}) = {{ {body}ret {acc} }} that\n")
+    }
 }
 
 pub fn program(case: &BlockCase, perm: &[usize]) -> String {
@@ -32,11 +50,11 @@ pub fn program(case: &BlockCase, perm: &[usize]) -> String {
     }
     // the body observes every definition in index order
     let n = case.edges.len();
-    for i in 0..n {
+    for i in (0..n).filter(|i| case.kinds[*i] != 2) {
         writeln!(s, "  do r{i} <- ! zq{i}; do t{i} <- ! (int64/to_string) r{i};").unwrap();
     }
     let mut tail = String::from("! (process/exit) 0");
-    for i in (0..n).rev() {
+    for i in (0..n).rev().filter(|i| case.kinds[*i] != 2) {
         tail = format!("! (stdio/write_line) t{i} {{ {tail} }}");
     }
     writeln!(s, "  {tail}\nend").unwrap();
@@ -60,7 +78,8 @@ pub fn observed_order(analysis: &zydeco_session::ProgramAnalysis) -> Option<Stri
                     | _ => None,
                 }
             }
-            var(scoped, binder)?.strip_prefix("zq")?.parse().ok()
+            let name = var(scoped, binder)?;
+            name.strip_prefix("zq").or_else(|| name.strip_prefix("Zq"))?.parse().ok()
         };
         let order = ctx.topological_order();
         let mut parts = Vec::new();
@@ -109,7 +128,23 @@ fn gen_case(rng: &mut Rng, want_cycle: bool) -> BlockCase {
         e2[relabel[i]] = edges[i].iter().map(|j| relabel[*j]).collect();
     }
     let consts = (0..n).map(|i| 100 * (i as i64 + 1) + rng.range(1, 9)).collect();
-    BlockCase { edges: e2, consts }
+    // a third of the definitions are type aliases; a type refers to at most one other type, a value
+    // to at most one type (in its annotation) and to any values
+    let kinds: Vec<u8> = (0..n).map(|_| if rng.chance(1, 3) { 2 } else { rng.below(2) as u8 }).collect();
+    for i in 0..n {
+        let mut seen_type = false;
+        let is_type = kinds[i] == 2;
+        e2[i].retain(|j| {
+            if kinds[*j] == 2 {
+                let keep = !seen_type;
+                seen_type = true;
+                keep
+            } else {
+                !is_type
+            }
+        });
+    }
+    BlockCase { edges: e2, consts, kinds }
 }
 
 fn permutations(n: usize, rng: &mut Rng, limit: usize) -> Vec<Vec<usize>> {
